@@ -52,3 +52,11 @@ CLAIMS['C19'] = dict(
           'written before inputs are deleted, and the final-name pattern cannot match the temp-name literals. These ordering facts hold at every crash point because they hold on every path. '
           'Durability without fsync and parsing of leftover names beyond the literal check are not decided.'),
     note='Completed system calls persist; Drop does not run on a process stop.')
+CLAIMS['C05'] = dict(
+    technique='static analysis: edge dominance of canonicalised comparisons (loop-relative), def-use provenance of answer fields',
+    text=('Decides that every positive dedup answer is guarded by full-width hash equality: on disk the first chunk and, per loop iteration, each further chunk is compared with '
+          'keyed_chunk_hash(query[i]) before its bytes are accumulated or the loop continues; in memory the run grows only past in-bounds full-hash-equal positions; the manager '
+          'returns only these matchers\' answers and probes keyed collections with the keyed hash; keyed_chunk_hash applies the HMAC exactly when the shard is keyed; the deduper\'s '
+          'local matcher requires position base+i. Answer fields (count, bytes, range, xorb hash) originate from the guarded accumulators. Holds for all inputs including colliding 64-bit '
+          'prefixes because the guard is the 256-bit comparison. Not decided: index arithmetic values, the truncated-prefix table search (C09), last-writer-wins in the manager map.'),
+    note='Comparisons are canonicalised (==/!=, operand order, PartialEq calls, negation).')
